@@ -157,7 +157,7 @@ class Any(metaclass=Meta):
         """
         try:
             return cls._cast(value)
-        except (ValueError, TypeError) as err:
+        except (ValueError, TypeError, OverflowError) as err:
             raise _exception.CastError(f'Unable to cast {repr(value)} as {cls.__name__}') from err
 
     @classmethod
